@@ -968,6 +968,9 @@ func first(a, _ []byte) []byte { return a }
 
 //@ spec stackOK(q) = forall(j, 0, len(q), q[j].pointer != nil && okRef(q[j]) && liveChild(q[j]))
 
+// every_child_pushed: when the traversal has expanded an inner node, the stack has grown by
+// exactly the node's number of children (node48: bytes with a slot index; node256: non-nil
+// slots): no child is skipped and none is pushed twice by the loop bounds.
 //@ func all$1
 //@   locals q n k v n4 i n16 n48 idx n256
 //@   opt casts on
@@ -976,13 +979,25 @@ func first(a, _ []byte) []byte { return a }
 //@   loop 1 (q)
 //@     invariant stackOK(q)
 //@   loop 2 (i)
+//@     ghost q0 = len(q)
 //@     invariant stackOK(q) && 0 - 1 <= i && i < n4.childrenLen
+//@     invariant[count] len(q) == q0 + (n4.childrenLen - 1 - i)
+//@     exit_ensures[every_child_pushed] len(q) == q0 + n4.childrenLen
 //@   loop 3 (i)
+//@     ghost q0 = len(q)
 //@     invariant stackOK(q) && 0 - 1 <= i && i < n16.childrenLen
+//@     invariant[count] len(q) == q0 + (n16.childrenLen - 1 - i)
+//@     exit_ensures[every_child_pushed] len(q) == q0 + n16.childrenLen
 //@   loop 4 (i)
+//@     ghost q0 = len(q)
 //@     invariant stackOK(q) && 0 - 1 <= i && i <= 255
+//@     invariant[count] len(q) == q0 + cntNZ(n48.keys, 256) - cntNZ(n48.keys, i + 1)
+//@     exit_ensures[every_child_pushed] len(q) == q0 + cntNZ(n48.keys, 256)
 //@   loop 5 (i)
+//@     ghost q0 = len(q)
 //@     invariant stackOK(q) && 0 - 1 <= i && i <= 255
+//@     invariant[count] len(q) == q0 + cntP(n256.children, 256) - cntP(n256.children, i + 1)
+//@     exit_ensures[every_child_pushed] len(q) == q0 + cntP(n256.children, 256)
 
 //@ func backward$1
 //@   locals q n k v n4 i n16 n48 idx n256
@@ -992,13 +1007,25 @@ func first(a, _ []byte) []byte { return a }
 //@   loop 1 (q)
 //@     invariant stackOK(q)
 //@   loop 2 (i)
+//@     ghost q0 = len(q)
 //@     invariant stackOK(q) && 0 <= i && i <= 4
+//@     invariant[count] len(q) == q0 + i
+//@     exit_ensures[every_child_pushed] len(q) == q0 + n4.childrenLen
 //@   loop 3 (i)
+//@     ghost q0 = len(q)
 //@     invariant stackOK(q) && 0 <= i && i <= 16
+//@     invariant[count] len(q) == q0 + i
+//@     exit_ensures[every_child_pushed] len(q) == q0 + n16.childrenLen
 //@   loop 4 (i)
+//@     ghost q0 = len(q)
 //@     invariant stackOK(q) && 0 <= i && i <= 256
+//@     invariant[count] len(q) == q0 + cntNZ(n48.keys, i)
+//@     exit_ensures[every_child_pushed] len(q) == q0 + cntNZ(n48.keys, 256)
 //@   loop 5 (i)
+//@     ghost q0 = len(q)
 //@     invariant stackOK(q) && 0 <= i && i <= 256
+//@     invariant[count] len(q) == q0 + cntP(n256.children, i)
+//@     exit_ensures[every_child_pushed] len(q) == q0 + cntP(n256.children, 256)
 
 //@ func filter$1
 //@   locals q n k v n4 i n16 n48 idx n256
@@ -1009,13 +1036,25 @@ func first(a, _ []byte) []byte { return a }
 //@   loop 1 (q)
 //@     invariant stackOK(q)
 //@   loop 2 (i)
+//@     ghost q0 = len(q)
 //@     invariant stackOK(q) && 0 - 1 <= i && i < n4.childrenLen
+//@     invariant[count] len(q) == q0 + (n4.childrenLen - 1 - i)
+//@     exit_ensures[every_child_pushed] len(q) == q0 + n4.childrenLen
 //@   loop 3 (i)
+//@     ghost q0 = len(q)
 //@     invariant stackOK(q) && 0 - 1 <= i && i < n16.childrenLen
+//@     invariant[count] len(q) == q0 + (n16.childrenLen - 1 - i)
+//@     exit_ensures[every_child_pushed] len(q) == q0 + n16.childrenLen
 //@   loop 4 (i)
+//@     ghost q0 = len(q)
 //@     invariant stackOK(q) && 0 - 1 <= i && i <= 255
+//@     invariant[count] len(q) == q0 + cntNZ(n48.keys, 256) - cntNZ(n48.keys, i + 1)
+//@     exit_ensures[every_child_pushed] len(q) == q0 + cntNZ(n48.keys, 256)
 //@   loop 5 (i)
+//@     ghost q0 = len(q)
 //@     invariant stackOK(q) && 0 - 1 <= i && i <= 255
+//@     invariant[count] len(q) == q0 + cntP(n256.children, 256) - cntP(n256.children, i + 1)
+//@     exit_ensures[every_child_pushed] len(q) == q0 + cntP(n256.children, 256)
 
 // lowestCommonParent: byte-directed descent. Rung 1: safety, purity, and the result is a
 // live well-typed reference of the tree (what filter requires).
